@@ -176,11 +176,11 @@ def _train_implicit_cholesky_rows(
 
     for i in range(start, end):
         row = ctx.matrix[i]
-        (n,) = row.shape
+        cols = row.indices()[0]
+        (n,) = cols.shape
         if n == 0:
             continue
 
-        cols = row.indices()[0]
         vals = row.values().type(ctx.left.type())
 
         # we can optimize by only considering the nonzero entries of Cu-I
